@@ -131,6 +131,15 @@ func (g *gen) simple() Val {
 	return v
 }
 
+// simple2: a simple value that is not nil.
+func (g *gen) simple2() Val {
+	v := g.simple()
+	for v.K == "nil" {
+		v = g.simple()
+	}
+	return v
+}
+
 // val generates an operand. top says whether the value is a direct
 // argument of a print call (pointers to structs print their address
 // anywhere else, which would not be stable across processes).
@@ -200,6 +209,13 @@ func (g *gen) val(depth int, top bool) Val {
 		return Val{K: g.pick([]string{"nilstringer", "nilerror", "typednilerr", "goerr"}), S: Str(g.payload())}
 	case x < 76:
 		return Val{K: "arrn", I: int64(g.r.Intn(1200))}
+	case x < 78 && top:
+		// a reflect.Value operand (direct operands only: inside a container
+		// a reflect.Value prints its own internals, addresses included)
+		if g.chance(0.5) {
+			return Val{K: "rv", V: []Val{g.simple2()}}
+		}
+		return Val{K: "rv", V: []Val{g.scripted(g.pick(scriptedList), depth+1)}}
 	default:
 		if depth > g.maxDepth+1 {
 			return g.simple()
